@@ -77,6 +77,14 @@ func init() {
 		"(golang.org/x/xerrors.Frame).Format":   nop,
 		"(golang.org/x/xerrors.Frame).location": func(fr *frame, a []value) (value, bool) { return tuple{"", "", 0}, true },
 		"runtime.KeepAlive":       nop,
+		// logging gets empty bodies (formatting is not the subject of any check)
+		"oss.terrastruct.com/d2/lib/log.Debug": nop,
+		"oss.terrastruct.com/d2/lib/log.Info":  nop,
+		"oss.terrastruct.com/d2/lib/log.Warn":  nop,
+		"oss.terrastruct.com/d2/lib/log.Error": nop,
+		"log/slog.Any": func(fr *frame, a []value) (value, bool) {
+			return structure{"", structure{array{}, uint64(0), iface{}}}, true
+		},
 
 		// sync/atomic
 		"sync/atomic.LoadInt32":    atomicLoad,
